@@ -104,23 +104,28 @@ class C12(Prop):
     coq_files = ("Base", "C12_Consts", "C12_Model", "C12_Spec", "C12_Proofs", "C12_Props")
     models = ("C12_Model",)
     packages = {"rs": "internal/app/referenceserver"}
-    kinds = {"c12.seq": "rs", "c12.matrix": "rs", "c12.render": "rs", "c12.timeouts": "rs"}
+    kinds = {"c12.seq": "rs", "c12.matrix": "rs", "c12.render": "rs", "c12.timeouts": "rs", "c12.live": "rs"}
     consts = ("rs",)
     rule = ("c12.matrix: the FULL matrix (in chunks of 36 renderings) of 648 announced set-ups (3 HTTP versions x GET/POST x 3 protocols x 2 codecs x 6 compressions x "
             "TLS off/on/on+client-cert) x 756 client renderings (3 versions x 7 wire shapes x 2 codecs x 6 compressions x 3 TLS modes) = "
             "489,888 requests through referenceServerChecks (httptest, recording printer) on every run; c12.render: the harness's "
             "independent renderer against the model's render for every rendering and set-up; c12.timeouts: ALL strings of length <=4 "
-            "(quick; <=5 thorough) over {0,1,9,+,-,space,_,H,M,S,m,u,n,x} for Connect, gRPC and gRPC-Web, boundary digit strings "
+            "(quick; <=5 thorough, plus length 6 over {0,9,+,-,space,S,m,x}) over {0,1,9,+,-,space,_,H,M,S,m,u,n,x} for Connect, gRPC and gRPC-Web, boundary digit strings "
             "(9..9, 10..0, leading zeros, int64/hour-overflow neighbours) of lengths 1-21 x six units and bad units, seeded random "
             "strings to length 12; c12.seq: sequences of general requests on one handler (repeats, trailers, duplicated headers and "
-            "query parameters, missing name, malformed x-expect-* values, foreign methods, bodies on GET, certificate names). "
+            "query parameters, missing name, malformed x-expect-* values, foreign methods, bodies on GET, certificate names); "
+            "c12.live: 600 (quick) / 12000 (thorough) such requests sent by a real Go client over real listeners (HTTP/1.1, HTTP/1.1+TLS, "
+            "HTTP/2+TLS, h2c; with and without the client certificate of internal.NewClientCert), so that ProtoMajor, req.TLS, header "
+            "canonicalisation, query parsing, body and trailers are what net/http delivers; extra: the Go side against a python regular-"
+            "expression oracle of the two grammars on ~2400 boundary strings x 3 protocols (independent of the regenerated constants). "
             "Compared: feedback kinds with arguments and prefix, accepted duration in ns, header seen by the inner handler, timeout_ms echoed "
             "by createRequestInfo. non-trivial = some feedback or an accepted timeout")
     trusted_base = ("Coq 8.16.1 kernel (vm_compute used, native_compute not)", "extraction (ExtrOcamlBasic only) + ocaml/driver.ml",
                     "vlib generators/comparator, Go overlay harness (request construction from the record, feedback-kind mapping)",
-                    "modelled not verified: net/http header canonicalisation and whitespace trimming, url.Values parsing, req.TLS "
-                    "population, req.Trailer population, connect.ErrorWriter, float64 arithmetic of time.Duration.Hours/Minutes/Seconds "
-                    "(hypothesis float_quot_ok, exercised at the overflow boundaries)")
+                    "modelled, sampled by c12.live, not verified: net/http header canonicalisation, url.Values parsing, req.TLS and "
+                    "req.Trailer population (HTTP/3 not exercised live); whitespace trimming of header values and connect.ErrorWriter are "
+                    "outside the model; float64 arithmetic of time.Duration.Hours/Minutes/Seconds enters the theorems as hypothesis "
+                    "float_quot_ok (within 1 of the truncated quotient, exact on multiples), exercised at the overflow boundaries")
     assumptions = ("requests reach the checks as net/http delivers them (canonical header keys, parsed query)",
                    "Duration.Hours/Minutes/Seconds are within 1 of the exact quotient and exact on exact multiples")
 
@@ -129,8 +134,11 @@ class C12(Prop):
                   "requests, and accepts a timeout header iff it follows the protocol grammar (all byte strings), with exact/saturating "
                   "duration, removal and echo; the model is tied to the Go code by the full-matrix and bounded-exhaustive differential run.")
     level_note = ("Trusted: Coq kernel, extraction, OCaml driver, harness; model-code correspondence is tested (full matrix, exhaustive "
-                  "short timeout strings), not proved. net/http, url parsing, TLS state and float64 duration conversion are outside the model.")
-    technique = "Coq proof (finite-domain sweep + induction on digit strings) about a model of checks.go; differential model-vs-Go correspondence"
+                  "short timeout strings, live requests), not proved. The theorems about the matrix range over the 648 x 756 finite domain "
+                  "and every test name; those about timeouts, repeats, trailers and nameless requests over all byte strings / requests / "
+                  "histories. Nothing is partial. float64 duration conversion is a hypothesis (float_quot_ok), inhabited by the exact quotient.")
+    technique = ("Coq proof (per-aspect case analysis over the finite matrix, induction on digit strings and histories, int64 wrap-around "
+                 "arithmetic) about a model of checks.go; differential model-vs-Go correspondence incl. live HTTP/TLS requests")
 
     def nontrivial(self, case, res):
         return ("(1" in res or "(2" in res or "(3" in res or "(7" in res or "(9" in res or "(" in res[2:]) and len(res) > 8
@@ -173,6 +181,8 @@ class C12(Prop):
         vals = [""]
         for n in range(1, maxlen + 1):
             vals.extend("".join(t) for t in itertools.product(ALPHA14, repeat=n))
+        if tier != "quick":   # length 6 exhaustively over a reduced alphabet (sign, blank, two digits, float / integer / bad unit)
+            vals.extend("".join(t) for t in itertools.product("09+- Smx", repeat=6))
         bnd = boundary_values()
         rnd = []
         n_rand = 4000 if tier == "quick" else 100000
@@ -280,6 +290,60 @@ class C12(Prop):
             r["name"] = []
             yield ["c12.seq", [req_sx(r)]]
 
+    def gen_live(self, rng, tier):
+        """requests sent by a real Go client over real listeners (HTTP/1.1, HTTP/1.1+TLS, HTTP/2+TLS, h2c; with and without the
+        client certificate made by internal.NewClientCert): what net/http delivers (ProtoMajor, req.TLS, canonical headers,
+        parsed query, body, trailers) against the record the model reads.  Only values that survive the wire unchanged
+        (no surrounding blanks, methods the client does not rewrite, te absent or `trailers`)."""
+        n = 600 if tier == "quick" else 12000
+        weird_enum = ["0", "4", "7", "+1", "-1", "x", "", "01", "2147483648", "3"]
+        weird_bool = ["1", "0", "t", "F", "TRUE", "tRUE", "yes", ""]
+        cts = ["application/grpc", "application/grpc+proto", "application/grpc-web", "application/grpc-web+json", "application/grpcx",
+               "application/connect+proto", "application/json", "application/", "text/plain", "", "application/proto; charset=utf-8"]
+        # every transport x TLS expectation x a rendering, unperturbed and perturbed
+        for i in range(n):
+            mode = i % 6
+            v, s, c, z = (1 if mode >= 3 else 0), rng.randrange(7), rng.randrange(2), rng.randrange(6)
+            t = {0: 0, 1: 1, 2: 2, 3: 1, 4: 2, 5: 0}[mode]
+            r = render(v, s, c, z, t)
+            get, p = SHAPE_AXES[s]
+            ev, et = v, t
+            if rng.random() < 0.3:
+                ev = rng.randrange(3)
+            if rng.random() < 0.4:
+                et = rng.randrange(3)
+            r = expect(r, rng.choice(["t", "A/b"]), ev, get, p, c, z, et)
+            for _ in range(rng.choice([0, 0, 1, 2])):
+                k = rng.randrange(9)
+                if k == 0:
+                    r["name"] = rng.choice([[], [""], ["t", "u"]])
+                elif k == 1:
+                    f = rng.choice(["xv", "xp", "xc", "xz"])
+                    r[f] = rng.choice([[rng.choice(weird_enum)], [], r[f] + [rng.choice(weird_enum)]])
+                elif k == 2:
+                    r["xt"] = rng.choice([[rng.choice(weird_bool)], [], r["xt"] + ["true"]])
+                elif k == 3:
+                    r["xcert"] = rng.choice([[], ["Other"], [CERT, CERT], [""], [CERT]])
+                elif k == 4:
+                    r["ct"] = rng.choice([[rng.choice(cts)], [], r["ct"] + [rng.choice(cts)]])
+                elif k == 5:
+                    r["method"] = rng.choice(["GET", "POST", "PUT"])
+                    r["body_empty"] = rng.random() < 0.5
+                elif k == 6:
+                    r["qenc"] = rng.choice([[], ["proto"], ["json"], ["proto", "json"], [""], ["x&y=z"]])
+                    r["qcomp"] = rng.choice([[], ["gzip"], ["identity"], ["gzip", "gzip"], ["%"]])
+                elif k == 7:
+                    if r["method"] != "GET":
+                        r["trailers"] = rng.choice([1, 2, 5])
+                        r["body_empty"] = False
+                else:
+                    f = rng.choice(["cto", "gto"])
+                    r[f] = rng.choice([["100"], ["5S"], ["+5"], ["-0m"], ["100", "200"], [""], ["99999999H"], ["000000001H"],
+                                       ["12345678901"], ["x"], [str(rng.randrange(10 ** 8)) + rng.choice(UNITS)]])
+            if r["trailers"] and r["method"] == "GET":
+                r["body_empty"] = False     # Go's client drops an empty body (and its trailers) on GET
+            yield ["c12.live", mode, req_sx(r)]
+
     def generate(self, rng, tier):
         # chunks of 36 renderings (one version x shape x codec slice): small enough for the shrinker
         for e in range(N_AXES):
@@ -291,6 +355,7 @@ class C12(Prop):
             yield ["c12.render", rng.randrange(N_ACTUAL), e]
         yield from self.gen_timeouts(rng, tier)
         yield from self.gen_seq(rng, tier)
+        yield from self.gen_live(rng, tier)
 
 
 PROP = C12()
